@@ -138,12 +138,12 @@ func runSeqParser(cfg jwtCfg, ops string) (dump string, p *pending, exp jwtExpec
 	return token.VerifDump(tp), p, exp
 }
 
-func searchSeq(r *vlib.Report, level string, cfg jwtCfg, alphabet string, depth int, first byte, sink *[]pending) vlib.BFSResult {
+func searchSeq(r *vlib.Report, level string, cfg jwtCfg, alphabet string, depth int, first byte, until time.Time, sink *[]pending) vlib.BFSResult {
 	ops := []byte(alphabet)
 	b := vlib.BFS[byte]{
 		Name:     "rotation-" + level,
 		MaxDepth: depth,
-		Deadline: r.Cfg().Deadline(),
+		Deadline: until,
 		Alphabet: func(d int, path []byte) []byte {
 			if d == 0 && first != 0 {
 				return []byte{first}
